@@ -78,10 +78,13 @@ def t_reader_slice(env, out, serial):
     if serial:
         # the serial counterpart of a multi-box selection: the same boxes read one by one in the calling process
         return [[pck[:][1][b] for b in range(4)], [pck["density"][0][b] for b in (2, 0)], [pck[[0, 2]][1][b] for b in (0, 2, 3)],
-                [pck["temp"][1][b] for b in (1, 3, 0)], [pck[0:2][1][b] for b in (2, 3)], [pck[1:3][1][b] for b in (2, 1)], [pck[1:3][1][b] for b in (1, 2)]]
-    # (an index list that is a 3-cycle; partial field slices read box by box in the calling process BEFORE the pooled read)
+                [pck["temp"][1][b] for b in (1, 3, 0)], [pck[0:2][1][b] for b in (2, 3)], [pck[1:3][1][b] for b in (2, 1)], [pck[1:3][1][b] for b in (1, 2)],
+                [pck[[0, 1]][1][b] for b in (0, 2, 3)], [pck[[1, 2]][0][b] for b in range(3)]]
+    # (an index list that is a 3-cycle; partial field slices read box by box in the calling process BEFORE the pooled read;
+    # lists of consecutive fields, whose serial results are all held while the next box is read)
     return [pck[:][1][:], pck["density"][0][[2, 0]], pck[[0, 2]][1][[True, False, True, True]], pck["temp"][1][[1, 3, 0]],
-            [pck[0:2][1][2], pck[0:2][1][3]], [pck[1:3][1][2], pck[1:3][1][1]], pck[1:3][1][1:3]]
+            [pck[0:2][1][2], pck[0:2][1][3]], [pck[1:3][1][2], pck[1:3][1][1]], pck[1:3][1][1:3],
+            pck[[0, 1]][1][[True, False, True, True]], pck[[1, 2]][0][:3]]
 
 
 def t_reader_iter(env, out, serial):
